@@ -172,6 +172,24 @@ ADD6 = {
  "C17": " (R3) nothing removes entries from the language override table.",
 }
 
+ADD7 = {
+ "C01": " (R3) the C mirror of a trait's vtable lists every trait method (no filter).",
+ "C02": " (R1) the UTF-8 validation branch is taken under the type test alone; the validation list reaches the template slot through returned records (provenance); (R6) path_diff, own-declaration-first, enum values (shared C09, C11.R3).",
+ "C03": " (R5) a class of the C++ runtime that releases a member in its destructor is not member-wise copyable.",
+ "C04": " (R1) a dart/js conversion that recurses into an option's payload forwards its StructBorrowContext; (R6) does_type_use_lifetime_from_set asks Type::lifetimes() only.",
+ "C05": " (R4) Param::is_write is true for `&mut DiplomatWrite` only.",
+ "C07": " (R2) Kotlin declares every fallible/nullable return as an Option../Result.. record; the JNA vtable mirror lists every trait method (known finding: it filters disabled ones).",
+ "C08": " (R3) padding cells = padding / cell width; accumulators recognised by role; (R6) the three ForcePaddingStatus values print three texts; (R8) _intoFFI and _fromFFI consult the same representation flags.",
+ "C09": " (R3) one `../` per remaining directory level; rm_forward touches the type's own namespace table; (R2) repr(C) is added exactly when the struct has no repr (shared C01.R5).",
+ "C10": " (R5) the C++ option record's flag is x.has_value() alone; diplomat::result accessors (shared C02.R6).",
+ "C12": " (R7) lower_return_type writes SuccessType::Unit only where write-or-unit is computed.",
+ "C13": " (R4) every walk over all_types()/all_traits() outside the item loop filters on disable; renamed comparators are called by their renamed name (shared C02.R6).",
+ "C14": " (R4) fmt_file_name keeps the type name as it is.",
+ "C15": " (R3) docs links: trailing path elements reserved = elements taken, per DocType; str::split(..).next_back().unwrap() is not data-dependent; (R1) file names injective (shared C14.R4).",
+ "C16": " (R7) runtime.hpp builds a view from a C {data, len} record with both members.",
+ "C17": " (R1) gen reads nothing from the configuration before the last source is applied; (R3) SharedConfig::set matches on the key parameter itself.",
+}
+
 def main():
     props = [json.loads(l) for l in open(os.path.join(V, "properties.jsonl"))]
     checks = []
@@ -187,7 +205,7 @@ def main():
                 "evidence_file": "/verif/evidence/%s.json" % pid,
                 "replay_cmd_template": "./check %s quick  # replay file {path} lists the violated rule instances" % pid,
                 "engine": "dipfacts+rules",
-                "level_claimed": {"category": "other", "text": c["text"] + ADD.get(pid, ("", ""))[0] + ADD3.get(pid, "") + ADD4.get(pid, "") + ADD5.get(pid, "") + ADD6.get(pid, ""), "design_ref": "DESIGN.md section 4 " + pid},
+                "level_claimed": {"category": "other", "text": c["text"] + ADD.get(pid, ("", ""))[0] + ADD3.get(pid, "") + ADD4.get(pid, "") + ADD5.get(pid, "") + ADD6.get(pid, "") + ADD7.get(pid, ""), "design_ref": "DESIGN.md section 4 " + pid},
                 "level_note": c["note"],
                 "technique": "static analysis: " + c["technique"] + ADD.get(pid, ("", ""))[1],
             })
